@@ -458,6 +458,11 @@ def ht_parts(a):
     return a[1:i], a[i + 1:j], a[j + 1:]
 
 
+HT_FOREIGN = "link-names-the-stem-file-of-the-class-name"
+HT_FOREIGN_LISTED = [any(f.get("property") == "C13" and f.get("id") == HT_FOREIGN for f in core.load_known_findings().get("findings", []))]
+HT_FOREIGN_SEEN = [0]
+
+
 def ht_oracle(case, obs):
     """C13's statement on the implementation's answers alone: the relation declared by the texts decides supertypes and
        subtypes of every prepared item; an item's selection range selects its own name in the file it points to"""
@@ -492,6 +497,9 @@ def ht_oracle(case, obs):
     poss_s, ans_s = obs.split("#", 1)
     poss, answers = poss_s.split("|"), ans_s.split("|")
     lines_of = dict((i["stem"].upper(), i["text"].split("\n")) for i in infos)
+    import re as _re2
+    not_at_home = any(len(_re2.findall(r"^\s*(?:class|module)\b", i["text"], _re2.I | _re2.M)) > 1
+                      or (i["entity"] and i["entity"][1].upper() != i["stem"].upper()) for i in infos)
 
     def sel_ok(it):
         k, n, st, sel, rg = it
@@ -499,6 +507,11 @@ def ht_oracle(case, obs):
         if ls is None:
             return "item %r points to the file %s.god that is not in the workspace" % (n, st)
         if sel[0] != sel[2] or sel[0] >= len(ls) or ls[sel[0]][sel[1]:sel[3]] != n.split("#")[0] and n != "self":
+            if HT_FOREIGN_LISTED[0] and not_at_home:
+                # listed finding (known_findings.json, C08/C13): a table knows its class NAME; a file with two headers, or
+                # whose class is not called like the file, is named through the stem index by that name
+                HT_FOREIGN_SEEN[0] += 1
+                return None
             return "the selection range %r of item %r does not select that name in %s.god" % (sel, n, st)
         if not ((rg[0], rg[1]) <= (sel[0], sel[1]) and (sel[2], sel[3]) <= (rg[2], rg[3])):
             return "selection range %r of item %r outside its range %r" % (sel, n, rg)
@@ -786,6 +799,16 @@ def ht_nontrivial(case):
 
 
 def hiertree_stage(ctx):
+    HT_FOREIGN_LISTED[0] = any(f.get("id") == HT_FOREIGN for f in ctx.open_findings())
+    HT_FOREIGN_SEEN[0] = 0
+    try:
+        return _hiertree_stage(ctx)
+    finally:
+        if HT_FOREIGN_SEEN[0]:
+            ctx.known("%s: %d items of workspaces with a two-header file / a file not named after its class name the stem file of the table's class name" % (HT_FOREIGN, HT_FOREIGN_SEEN[0]))
+
+
+def _hiertree_stage(ctx):
     cases, hist = ht_cases(ctx)
     cov = diff.differential(ctx, "hiertree", cases, split=ht_split, oracle=ht_oracle, canon=ht_canon,
                             shrinker=ht_shrinker, nontrivial=ht_nontrivial, describe=ht_describe)
